@@ -1,0 +1,83 @@
+//go:build verif
+
+// Contracts for govc (see /verif/DESIGN.md). Comment-only file.
+
+package ixbuf
+
+//@ pragma strings ordered
+//@ pragma autoinline 40
+//@ property C11
+
+// ---- the per-key combination algebra --------------------------------------
+// An entry is an offset (low 40 bits) with its kind in the top two bits:
+// 0 add, 1 update, 2 delete. Bits 40..61 must be clear.
+//@ spec ixKind(o uint64) uint64 = o >> 62
+//@ spec ixOff(o uint64) uint64 = o & 1099511627775
+//@ spec ixValid(o uint64) bool = (o & 4611684918915760128) == 0 && ixKind(o) != 3 && ixOff(o) != 0
+//@ spec ixPairOk(a uint64, b uint64) bool = (ixKind(a) == 0 && ixKind(b) == 1) || (ixKind(a) == 0 && ixKind(b) == 2) || (ixKind(a) == 1 && ixKind(b) == 1) || (ixKind(a) == 1 && ixKind(b) == 2) || (ixKind(a) == 2 && ixKind(b) == 0)
+
+//@ func Combine(off1, off2) (result, oldoff)
+//@   mode bv
+//@   requires ixValid(off1) && ixValid(off2)
+//@   panics_if !ixPairOk(off1, off2)
+//@   ensures! add_update: ixKind(off1) == 0 && ixKind(off2) == 1 ==> result == ixOff(off2) && oldoff == 0
+//@   ensures! add_delete: ixKind(off1) == 0 && ixKind(off2) == 2 ==> result == 0 && oldoff == 0
+//@   ensures! update_update: ixKind(off1) == 1 && ixKind(off2) == 1 ==> result == off2 && oldoff == ixOff(off1)
+//@   ensures! update_delete: ixKind(off1) == 1 && ixKind(off2) == 2 ==> result == off2 && oldoff == ixOff(off1)
+//@   ensures! delete_add: ixKind(off1) == 2 && ixKind(off2) == 0 ==> result == (off2 | 4611686018427387904) && oldoff == 0
+
+// Sequential meaning of one entry applied to the state of a key
+// (present?, current offset; the offset is 0 when absent).
+//@ spec opDefined(present bool, o uint64) bool = ixKind(o) == 0 ? !present : present
+//@ spec opPresent(present bool, o uint64) bool = ixKind(o) != 2
+//@ spec opCur(cur uint64, o uint64) uint64 = ixKind(o) == 2 ? 0 : ixOff(o)
+
+//@ lemma! combine_is_sequential(present bool, cur uint64, o1 uint64, o2 uint64): ixValid(o1) && ixValid(o2) && (present || cur == 0) && opDefined(present, o1) && opDefined(opPresent(present, o1), o2) ==> ixPairOk(o1, o2) && (Combine(o1, o2).result == 0 ==> !present && !opPresent(opPresent(present, o1), o2)) && (Combine(o1, o2).result != 0 ==> ixValid(Combine(o1, o2).result) && opDefined(present, Combine(o1, o2).result) && opPresent(present, Combine(o1, o2).result) == opPresent(opPresent(present, o1), o2) && opCur(cur, Combine(o1, o2).result) == opCur(opCur(cur, o1), o2))
+//@   mode bv
+
+//@ lemma! combine_oldoff(o1 uint64, o2 uint64): ixValid(o1) && ixValid(o2) && ixPairOk(o1, o2) ==> (ixKind(o1) == 1 ==> Combine(o1, o2).oldoff == ixOff(o1)) && (ixKind(o1) != 1 ==> Combine(o1, o2).oldoff == 0)
+//@   mode bv
+
+// ---- searching sorted chunks ----------------------------------------------
+//@ spec sortedChunk(c chunk) bool = forall i, j :: 0 <= i && i < j && j < len(c) ==> c[i].key < c[j].key
+
+//@ func search(c, key) (r)
+//@   requires sortedChunk(c)
+//@   ensures! range: 0 <= r && r <= len(c)
+//@   ensures! below: forall k :: 0 <= k && k < r ==> c[k].key < key
+//@   ensures! above: forall k :: r <= k && k < len(c) ==> c[k].key >= key
+//@   loop 0 invariant 0 <= i && i <= j && j <= len(c)
+//@   loop 0 invariant forall k :: 0 <= k && k < i ==> c[k].key < key
+//@   loop 0 invariant forall k :: j <= k && k < len(c) ==> c[k].key >= key
+//@   loop 0 decreases j - i
+
+// chunks: every chunk non-empty and sorted, chunks ordered among themselves
+//@ spec wfChunks(ib *ixbuf) bool = (forall ci :: 0 <= ci && ci < len(ib.chunks) ==> len(ib.chunks[ci]) >= 1 && sortedChunk(ib.chunks[ci])) && (forall ci, cj :: 0 <= ci && ci < cj && cj < len(ib.chunks) ==> ib.chunks[ci][len(ib.chunks[ci]) - 1].key < ib.chunks[cj][0].key)
+
+//@ func (ib *ixbuf) searchChunks(key) (r)
+//@   requires ib != nil && len(ib.chunks) >= 1 && wfChunks(ib)
+//@   ensures! range: 0 <= r && r < len(ib.chunks)
+//@   ensures! below: forall ci :: 0 <= ci && ci < r ==> ib.chunks[ci][len(ib.chunks[ci]) - 1].key < key
+//@   ensures! at: r == len(ib.chunks) - 1 || ib.chunks[r][len(ib.chunks[r]) - 1].key >= key
+//@   loop 0 invariant 0 <= i && i <= j && j <= len(ib.chunks)
+//@   loop 0 invariant forall ci :: 0 <= ci && ci < i ==> ib.chunks[ci][len(ib.chunks[ci]) - 1].key < key
+//@   loop 0 invariant forall ci :: j <= ci && ci < len(ib.chunks) ==> ib.chunks[ci][len(ib.chunks[ci]) - 1].key >= key
+//@   loop 0 decreases j - i
+
+//@ func (ib *ixbuf) search(key) (ci, c, i)
+//@   requires ib != nil && len(ib.chunks) >= 1 && wfChunks(ib)
+//@   ensures 0 <= ci && ci < len(ib.chunks) && c == ib.chunks[ci]
+//@   ensures forall cj :: 0 <= cj && cj < ci ==> ib.chunks[cj][len(ib.chunks[cj]) - 1].key < key
+//@   ensures ci == len(ib.chunks) - 1 || ib.chunks[ci][len(ib.chunks[ci]) - 1].key >= key
+//@   ensures 0 <= i && i <= len(c)
+//@   ensures forall k :: 0 <= k && k < i ==> c[k].key < key
+//@   ensures forall k :: i <= k && k < len(c) ==> c[k].key >= key
+
+// Lookup returns the stored entry of the unique slot with that key, or 0.
+//@ func (ib *ixbuf) Lookup(key) (r)
+//@   requires ib != nil && wfChunks(ib) && (ib.size == 0 <==> len(ib.chunks) == 0)
+//@   ensures! found: forall ci, i :: 0 <= ci && ci < len(ib.chunks) && 0 <= i && i < len(ib.chunks[ci]) && ib.chunks[ci][i].key == key ==> r == ib.chunks[ci][i].off
+//@   ensures! notfound: (forall ci, i :: 0 <= ci && ci < len(ib.chunks) && 0 <= i && i < len(ib.chunks[ci]) ==> ib.chunks[ci][i].key != key) ==> r == 0
+
+//@ func goal(n) (r)
+//@   ensures! r == (n < 256 ? 24 : n < 1024 ? 48 : n < 4096 ? 96 : n < 16384 ? 192 : n < 65536 ? 384 : 768)
